@@ -80,10 +80,10 @@ contract(FL + 'detect_flags', props=['C17'],
                      args=T.opaque, params=T.custom(lambda it, n: {})),
          spec_env=ENV, result=T.opaque, max_paths=40000,
          allow_raise=_exit1('unexpected() or (flags().per_constraint and flags().no_per_constraint) '
-                            'or (bool(flags().output_fields) and flags().no_output_fields)'),
+                            'or (flags().output_fields is not None and flags().no_output_fields)'),
          ensures=[('bad-invocations-exit',
                    'not (unexpected() or (flags().per_constraint and flags().no_per_constraint) '
-                   'or (bool(flags().output_fields) and flags().no_output_fields))'),
+                   'or (flags().output_fields is not None and flags().no_output_fields))'),
                   ('report-records', "params['report'] == 'records'"),
                   ('ascii', "params['ascii'] == flags().ascii"),
                   ('type_checking', "params.get('type_checking') == flags().type_checking"),
